@@ -34,17 +34,27 @@ CMR_ERROR CMRregularityDecomposeSeriesParallel(CMR* cmr, DecompositionTask* task
   CMR_SEPA* separation = NULL;
   if (dec->isTernary)
   {
-    CMR_CALL( CMRspDecomposeTernary(cmr, dec->matrix, &isSeriesParallel, reductions,
+    CMR_ERROR error = CMRspDecomposeTernary(cmr, dec->matrix, &isSeriesParallel, reductions,
       task->params->seriesParallel ? SIZE_MAX : 1, &numReductions, &reducedSubmatrix, &violatorSubmatrix, &separation,
-      task->stats ? &task->stats->seriesParallel : NULL, remainingTime) );
+      task->stats ? &task->stats->seriesParallel : NULL, remainingTime);
+    if (error)
+    {
+      CMR_CALL( CMRfreeStackArray(cmr, &reductions) );
+      return error;
+    }
 
     assert(violatorSubmatrix || separation || (numReductions == dec->numRows + dec->numColumns));
   }
   else
   {
-    CMR_CALL( CMRspDecomposeBinary(cmr, dec->matrix, &isSeriesParallel, reductions,
+    CMR_ERROR error = CMRspDecomposeBinary(cmr, dec->matrix, &isSeriesParallel, reductions,
       task->params->seriesParallel ? SIZE_MAX : 1,  &numReductions, &reducedSubmatrix, &violatorSubmatrix, &separation,
-      task->stats ? &task->stats->seriesParallel : NULL, remainingTime) );
+      task->stats ? &task->stats->seriesParallel : NULL, remainingTime);
+    if (error)
+    {
+      CMR_CALL( CMRfreeStackArray(cmr, &reductions) );
+      return error;
+    }
   }
 
   /* Did we find a 2-by-2 submatrix? If yes, is has determinant -2 or +2! */
